@@ -1625,7 +1625,9 @@ class BaseLoss(object):
         dealing with estimating the initial value as well
         """
         x0 = ode_utils.check_array_type(x0)
-        self._x0 = np.copy(x0)
+        # always a float copy: initial values that are being estimated are
+        # written into this array, an integer array would truncate them
+        self._x0 = np.array(x0, dtype=float)
 
     def _setLossType(self):
         """
